@@ -233,15 +233,15 @@ def strat_euler(ctx):
                                max_axis=3, chemostats="species", simple_graph=False, count_exp=(0, 2)),
         "pool": pool_st, "route_a": st.sampled_from(["ctor", "dict"]), "route_b": st.sampled_from(["ctor", "dict"]),
         "out_a": gen.us_any, "out_b": gen.us_any, "steps": st.integers(1, 12),
-        "dt_a": tform, "dt_b": tform, "tmax_a": tform, "tmax_b": tform,
+        "dt_a": tform, "dt_b": tform, "tmax_a": tform, "tmax_b": tform, "cgmap_b": st.booleans(),
     })
 
 
-def run_euler(system, U, dt, nsteps, dt_form, tmax_form):
+def run_euler(system, U, dt, nsteps, dt_form, tmax_form, cgmap=None):
     tmax = dt * (F(nsteps) + F(1, 2))
     return S.simulate(system, [0], engine=sim.engine("euler"), sampling_policy="on_iteration",
                       time_step=time_arg(dt, dt_form, U), t_max=time_arg(tmax, tmax_form, U),
-                      units_system=B.US(U))
+                      units_system=B.US(U), cgmap=cgmap)
 
 
 def check_euler(ctx, c):
@@ -260,7 +260,13 @@ def check_euler(ctx, c):
     dt = stable_dt(x, sc)
     N = c["steps"]
     ta = sut_call("simulate A", run_euler, sa, c["out_a"], dt, N, c["dt_a"], c["tmax_a"])
-    tb = sut_call("simulate B", run_euler, sb, c["out_b"], dt, N, c["dt_b"], c["tmax_b"])
+    # rendering B may additionally go through the coarse-graining path with the identity map (reflecting grids):
+    # the physics -- and therefore the result in SI -- must be the same
+    spb = Bs["space"]
+    cg = None
+    if c.get("cgmap_b") and spb["type"] == "grid" and not any(v == "periodical" for v in spb["bc"].values()):
+        cg = list(range(model.n))
+    tb = sut_call("simulate B" + (" (cgmap=identity)" if cg else ""), run_euler, sb, c["out_b"], dt, N, c["dt_b"], c["tmax_b"], cg)
     n = model.n * model.ns
     for nm, tr, U in (("A", ta, c["out_a"]), ("B", tb, c["out_b"])):
         if tr.t.units.sys["time"] != U["time"] or tr.data.units.sys["quantity"] != U["quantity"]:
@@ -339,6 +345,10 @@ def check_out(ctx, c):
             return
     if len(ta.t) != len(tb.t) or len(ta.data) != len(tb.data):
         raise Violation("output units changed the number of samples: %d vs %d" % (len(ta.t), len(tb.t)), key="out:nsamples")
+    fa, fb = si.si_floats(ta.t) + si.si_floats(ta.data), si.si_floats(tb.t) + si.si_floats(tb.data)
+    if any(v != v or v in (float("inf"), float("-inf")) for v in fa + fb):
+        ctx.skip("non-finite values in the trajectory (numerically unstable run)")
+        return
     for k, (p, q) in enumerate(zip(si.si_values(ta.t), si.si_values(tb.t))):
         if abs(p - q) > F(1, 10 ** 12) * abs(p):
             raise Violation("sample time %d differs: %r vs %r s" % (k, float(p), float(q)), key="out:t")
